@@ -256,6 +256,8 @@ func (s *Solver) declareVars(t *Term) {
 	}
 }
 
+var absSlack = new(big.Rat).SetFrac(big.NewInt(1), new(big.Int).Lsh(big.NewInt(1), 1073))
+
 var eps53 = new(big.Rat).SetFrac(big.NewInt(1), new(big.Int).Lsh(big.NewInt(1), 53))
 
 func collectRnd(t *Term, seen map[int]bool, out *[]*Term) {
@@ -269,6 +271,31 @@ func collectRnd(t *Term, seen map[int]bool, out *[]*Term) {
 	if t.Op == ORnd {
 		*out = append(*out, t)
 	}
+}
+
+// nonlinear reports whether t contains a product or quotient of two non-constant terms.
+func nonlinear(t *Term) bool {
+	seen := map[int]bool{}
+	var rec func(t *Term) bool
+	rec = func(t *Term) bool {
+		if seen[t.ID] || !t.HasVars() {
+			return false
+		}
+		seen[t.ID] = true
+		if (t.Op == OMul || t.Op == ODiv) && t.Sort == SReal && len(t.Args) == 2 && t.Args[0].HasVars() && t.Args[1].HasVars() {
+			return true
+		}
+		if t.Op == ORnd {
+			return false // an opaque value
+		}
+		for _, a := range t.Args {
+			if rec(a) {
+				return true
+			}
+		}
+		return false
+	}
+	return rec(t)
 }
 
 // MaxRnd caps the number of rnd applications axiomatised at once.
@@ -301,9 +328,14 @@ func (s *Solver) axiomatiseRnd(t *Term) {
 		s.declareVars(r)
 		rs, xs := Print(r), Print(x)
 		e := realLit(eps53)
-		// |r-x| <= eps*|x|
-		s.send(fmt.Sprintf("(assert (let ((d (- %s %s)) (m (* %s (ite (>= %s 0.0) %s (- %s))))) (and (<= d m) (<= (- d) m))))", rs, xs, e, xs, xs, xs))
+		// |r-x| <= eps*|x| + 2^-1073  (the absolute term covers results in the subnormal range)
+		s.send(fmt.Sprintf("(assert (let ((d (- %s %s)) (m (+ (* %s (ite (>= %s 0.0) %s (- %s))) %s))) (and (<= d m) (<= (- d) m))))", rs, xs, e, xs, xs, xs, realLit(absSlack)))
 		for _, o := range all {
+			// monotonicity is only instantiated for arguments of the same shape (both linear or
+			// both products): cross pairs are almost never needed and are expensive
+			if nonlinear(x) != nonlinear(o.Args[0]) {
+				continue
+			}
 			os_, ox := Print(o), Print(o.Args[0])
 			s.send(fmt.Sprintf("(assert (=> (<= %s %s) (<= %s %s)))", xs, ox, rs, os_))
 			s.send(fmt.Sprintf("(assert (=> (<= %s %s) (<= %s %s)))", ox, xs, os_, rs))
